@@ -58,7 +58,7 @@ const (
 // ---- case description (also the replay format) ------------------------------
 
 type c16Shape struct {
-	Arch    string `json:"arch"`    // llama | gemma3
+	Arch    string `json:"arch"`    // llama | gemma3 | starcoder2 (no graph formula in ggml.GraphSize)
 	Blocks  int    `json:"blocks"`  // <arch>.block_count
 	Profile string `json:"profile"` // uniform | bigearly | biglate | growing | hole
 	Output  string `json:"output"`  // none | small | big | tied
@@ -656,12 +656,19 @@ func c16MakePlan(thorough bool) c16Plan {
 	ns := []string{"none", "small"}
 	if !thorough {
 		p.Overheads = []uint64{0, c16OvMid}
+		// an architecture GraphSize has no formula for: the estimator falls back to a graph estimate of its own
+		p.Extra = []c16Shape{
+			{Arch: "starcoder2", Blocks: 2, Profile: "uniform", Output: "small"},
+			{Arch: "starcoder2", Blocks: 3, Profile: "growing", Output: "none"},
+		}
 		p.Levels = []c16Level{
 			{N: 1, Opts: "all", MaxBlocks: 5, Vision: "some", Proj: "all", Sums: "subsets", K: c16AllK, KCross: 1, Eps: c16Eps3, Libs: cmc, NumGPU: "all", MinPats: zb, Vector: "product"},
 			{N: 2, Opts: "one", MaxBlocks: 3, Vision: "some", Proj: "all", Sums: "reach", KCross: 0, Eps: c16Eps3, Libs: cm, NumGPU: "all", MinPats: zb, Vector: "product"},
 			{N: 2, Opts: "one", MinBlocks: 4, MaxBlocks: 5, Vision: "none", Proj: "nofile", Sums: "reach", KCross: -1, Eps: c16Eps3, Libs: cm, NumGPU: "core", MinPats: []string{"zero"}, Vector: "product"},
 			{N: 3, Opts: "one", MaxBlocks: 3, Profiles: ug, Outputs: ns, Vision: "none", Proj: "nofile", Sums: "reach", KCross: -1, Eps: c16Eps3, Libs: cm, NumGPU: "core", MinPats: []string{"zero"}, Vector: "product"},
 			{N: 4, Opts: "one", MaxBlocks: 3, Profiles: []string{"uniform"}, Outputs: []string{"small"}, Vision: "none", Proj: "nofile", Sums: "subsets", K: 1, KCross: -1, Eps: c16Eps3, Libs: []string{"cuda"}, NumGPU: "core", MinPats: []string{"zero"}, Vector: "product"},
+			// projector / vision tower with three GPUs: the GPU that is charged for the projector need not be the first of the list
+			{N: 3, Opts: "one", MaxBlocks: 2, Profiles: []string{"uniform"}, Outputs: []string{"small"}, Vision: "some", Proj: "all", Sums: "reach", KCross: -1, Eps: c16Eps3, Libs: []string{"cuda"}, NumGPU: "core", MinPats: []string{"zero"}, Vector: "product"},
 		}
 		return p
 	}
@@ -673,6 +680,9 @@ func c16MakePlan(thorough bool) c16Plan {
 		{Arch: "gemma3", Blocks: 3, Profile: "growing", Output: "tied", Vision: true},
 		{Arch: "gemma3", Blocks: 7, Profile: "uniform", Output: "small"},
 		{Arch: "gemma3", Blocks: 7, Profile: "uniform", Output: "none", Vision: true},
+		{Arch: "starcoder2", Blocks: 2, Profile: "uniform", Output: "small"},
+		{Arch: "starcoder2", Blocks: 3, Profile: "growing", Output: "none"},
+		{Arch: "starcoder2", Blocks: 5, Profile: "biglate", Output: "big"},
 	}
 	zbs := []string{"zero", "big", "small"}
 	core := []uint64{0, c16OvMid}
@@ -684,6 +694,7 @@ func c16MakePlan(thorough bool) c16Plan {
 		{N: 3, Opts: "one", MaxBlocks: 5, Outputs: nsb, Vision: "none", Proj: "nofile", Sums: "reach", KCross: -1, Eps: c16Eps3, Libs: cm, NumGPU: "core", MinPats: []string{"zero"}, Overs: core, Vector: "product"},
 		{N: 3, Opts: "one", MaxBlocks: 3, Vision: "some", Proj: "nofile", Sums: "reach", KCross: -1, Eps: c16Eps3, Libs: cm, NumGPU: "core", MinPats: []string{"alt"}, Overs: []uint64{c16OvMid}, Vector: "product"},
 		{N: 4, Opts: "one", MaxBlocks: 3, Profiles: ug, Outputs: []string{"small"}, Vision: "none", Proj: "nofile", Sums: "reach", KCross: -1, Eps: c16Eps3, Libs: cm, NumGPU: "core", MinPats: []string{"zero"}, Overs: []uint64{c16OvMid}, Vector: "product"},
+		{N: 3, Opts: "one", MaxBlocks: 3, Profiles: ug, Outputs: ns, Vision: "some", Proj: "all", Sums: "reach", KCross: -1, Eps: c16Eps3, Libs: cm, NumGPU: "core", MinPats: []string{"zero"}, Overs: core, Vector: "product"},
 		{N: 6, Opts: "one", MaxBlocks: 8, Profiles: ug, Vision: "none", Proj: "nofile", Sums: "subsets", K: 2, KCross: -1, Eps: c16Eps3, Libs: cm, NumGPU: "core", MinPats: zb, Overs: core, Vector: "pattern"},
 		{N: 8, Opts: "one", MaxBlocks: 8, Profiles: ug, Vision: "none", Proj: "nofile", Sums: "subsets", K: 2, KCross: -1, Eps: c16Eps3, Libs: cm, NumGPU: "core", MinPats: zb, Overs: core, Vector: "pattern"},
 	}
